@@ -24,9 +24,11 @@ pub struct CgCtx {
     /// final DFA.
     rule_states: Map<String, StateIdx>,
 
-    /// Sorted vector of states with only one predecessor. These states will be inlined in the
-    /// predecessor states and won't appear in the final code. Inlining these states significantly
-    /// improves code size and runtime performance.
+    /// Sorted vector of states with only one predecessor, reached from it by a single arm of the
+    /// predecessor's `match`. These states will be inlined in the predecessor states and won't
+    /// appear in the final code. Inlining these states significantly improves code size and
+    /// runtime performance. (A state reached by several arms would be copied into each of them,
+    /// and a chain of such states would be copied exponentially many times.)
     ///
     /// This vector is used to map non-inlined states to their final state indices in the generated
     /// code. For example, if this vector is `[5]`, state 5 is skipped, and states after 5 are
@@ -40,6 +42,45 @@ pub struct CgCtx {
 struct CgState {
     /// Binary search tables generated so far
     search_tables: SearchTableSet,
+}
+
+/// Number of places in the code generated for `pred` where the code of its successor `state`
+/// would be inlined.
+fn n_inline_sites<A>(pred: &super::super::State<Trans<A>, A>, state: StateIdx) -> usize {
+    let goes_to_state = |trans: &Trans<A>| matches!(trans, Trans::Trans(next) if *next == state);
+    let is_accept = |trans: &Trans<A>| matches!(trans, Trans::Accept(_));
+
+    let mut n_sites = 0;
+
+    // Characters with the same next state share one arm, and so do ranges
+    if pred.char_transitions.values().any(goes_to_state) {
+        n_sites += 1;
+    }
+
+    if pred
+        .range_transitions
+        .iter()
+        .any(|range| goes_to_state(&range.value))
+    {
+        n_sites += 1;
+    }
+
+    // The default arm is also the fall-through of every accepting arm
+    if pred.any_transition.as_ref().is_some_and(goes_to_state) {
+        n_sites += 1
+            + pred
+                .char_transitions
+                .values()
+                .filter(|trans| is_accept(trans))
+                .count()
+            + pred
+                .range_transitions
+                .iter()
+                .filter(|range| is_accept(&range.value))
+                .count();
+    }
+
+    n_sites
 }
 
 impl CgCtx {
@@ -56,10 +97,18 @@ impl CgCtx {
             .iter()
             .enumerate()
             .filter_map(|(state_idx, state)| {
-                if state.predecessors.len() == 1 {
-                    Some(StateIdx(state_idx))
-                } else {
-                    None
+                // Initial states are entered by `switch`, they always need an arm
+                if state.initial {
+                    return None;
+                }
+                let mut predecessors = state.predecessors.iter();
+                match (predecessors.next(), predecessors.next()) {
+                    (Some(pred), None)
+                        if n_inline_sites(&dfa.states[pred.0], StateIdx(state_idx)) == 1 =>
+                    {
+                        Some(StateIdx(state_idx))
+                    }
+                    _ => None,
                 }
             })
             .collect();
@@ -91,6 +140,11 @@ impl CgCtx {
     #[cfg(feature = "verif_hooks")]
     pub fn inlined_states(&self) -> &[StateIdx] {
         &self.inlined_states
+    }
+
+    /// Whether the code of the state is inlined at its (only) use site.
+    pub fn is_inlined(&self, state: StateIdx) -> bool {
+        self.inlined_states.binary_search(&state).is_ok()
     }
 
     pub fn n_inlined_states(&self) -> usize {
